@@ -115,8 +115,15 @@ func (a *AST) computeFollows(n Node) {
 	switch v := n.(type) {
 	case *Concat:
 		for i := 0; i < len(v.Exprs)-1; i++ {
-			for _, p := range v.Exprs[i].lastPos() {
-				a.follows[p] = append(a.follows[p], v.Exprs[i+1].firstPos()...)
+			// Positions of every following operand are reachable as long as the operands in between are nullable.
+			for j := i + 1; j < len(v.Exprs); j++ {
+				for _, p := range v.Exprs[i].lastPos() {
+					a.follows[p] = append(a.follows[p], v.Exprs[j].firstPos()...)
+				}
+
+				if !v.Exprs[j].nullable() {
+					break
+				}
 			}
 		}
 
@@ -230,7 +237,7 @@ func (n *Concat) compute() {
 	}
 
 	n.comp = &computed{
-		nullable: false,
+		nullable: true,
 		firstPos: Poses{},
 		lastPos:  Poses{},
 	}
